@@ -91,10 +91,15 @@ template <class T> static inline std::string tos(const T& v) { std::ostringstrea
 // ------------------------------------------------------------------------------------
 // Violations
 // ------------------------------------------------------------------------------------
+static FILE* g_out = nullptr;
 struct Violation {
     std::string key;     // stable, narrow identification (used for known-findings matching)
     std::string detail;  // human readable witness
-    Violation(const std::string& k, const std::string& d) : key(k), detail(d) {}
+    // The verdict is written to the event log at the moment it is reached: unwinding past live dd_edges in a forest whose
+    // counts are already wrong can crash, and the crash must not replace the observation that preceded it.
+    Violation(const std::string& k, const std::string& d) : key(k), detail(d) {
+        if (g_out) { fprintf(g_out, "{\"t\":\"thrown\",\"key\":%s,\"detail\":%s}\n", jstr(k).c_str(), jstr(d).c_str()); fflush(g_out); }
+    }
 };
 struct Unsupported {     // combination the library does not offer; never a violation
     std::string what;
@@ -574,7 +579,6 @@ static inline Table randomTable(Rng& r, const World& w, const FSpec& f, const st
 // ------------------------------------------------------------------------------------
 // Case context, counters and worker main
 // ------------------------------------------------------------------------------------
-static FILE* g_out = nullptr;
 // Record what the case is about to do (coarse, stable text such as "INTERSECTION:IR,IR->FR").  If the
 // process dies, the driver puts the last phase into the violation key of the sanitizer report.
 static std::string g_phase;
@@ -596,7 +600,7 @@ struct Ctx {
     std::vector<std::pair<std::string, std::string>> softViolations; // (key, detail): reported, case continues
     std::vector<std::string> unsupported;
     void count(const std::string& k, long d = 1) { counters[k] += d; }
-    void viol(const std::string& key, const std::string& detail) { softViolations.emplace_back(key, detail); }
+    void viol(const std::string& key, const std::string& detail) { softViolations.emplace_back(key, detail); if (g_out) { fputs("{\"t\":\"continuing\"}\n", g_out); fflush(g_out); } }   // a verdict recorded softly: the case goes on, a later crash is its own event
 };
 
 typedef void (*CaseFn)(Ctx&);
